@@ -2,7 +2,8 @@
 """Generate /verif/MANIFEST.json from checks.json (single source of truth)."""
 import json, os, subprocess
 V = os.path.dirname(os.path.dirname(os.path.abspath(__file__)))
-conf = json.load(open(os.path.join(V, "checks.json")))
+import glob
+conf = {os.path.basename(f)[:-5]: json.load(open(f)) for f in glob.glob(os.path.join(V, "checks", "C*.json"))}
 props = [json.loads(l) for l in open(os.path.join(V, "properties.jsonl"))]
 baseline = json.load(open("/root/.vp/BASELINE.json"))["cmd"]
 hooks = subprocess.run(["git", "-C", "/repo", "log", "--format=%H %s"], capture_output=True, text=True).stdout.splitlines()
